@@ -2,6 +2,7 @@
    the definitions regenerated from samples.py / utils.py (Gen/Kernels.v). *)
 From Coq Require Import Reals List Permutation.
 From AV Require Import Lib.Vec Gen.Kernels Proofs.C02.
+From AV Require Import Lib.XR Gen.KernelsX Proofs.C02x.
 Import ListNotations.
 Open Scope R_scope.
 
@@ -112,3 +113,33 @@ Example C02_hypotheses_satisfiable :
   let ll := [1; 2; 3] in let lp := [0; 0; 0] in let lq := [1; 1; 1] in let x := [tt; tt; tt] in
   ll <> [] /\ length x = length ll /\ length lp = length ll /\ length lq = length ll /\ (2 <= length ll)%nat.
 Proof. cbv zeta; simpl; repeat split; try congruence; auto. Qed.
+
+(* ---- "a subset equal to -inf": the same source functions translated over XR = reals + NaN / -inf / +inf with the IEEE
+   rules (Gen/KernelsX.v).  `fins lw` are the finite log-weights, in order; a row is admissible if it is finite or -inf
+   (that is what zero likelihood or zero prior produce: log_w_rows_ok).  A -inf row has weight zero: it drops out of the
+   sums but still counts in N.  Nothing becomes NaN as long as one row is finite. *)
+Theorem C02_neg_inf_rows_log_evidence : forall {X} (x : list X) ll lp lq,
+  let lw := xcompute_weights_log_w x ll lp lq in
+  Forall xrow_ok lw -> fins lw <> [] -> x <> [] ->
+  xcompute_weights_log_evidence x ll lp lq = Fin (ln (vsum (map exp (fins lw)) / INR (length x))).
+Proof. exact @x_log_evidence. Qed.
+Print Assumptions C02_neg_inf_rows_log_evidence.
+
+Theorem C02_neg_inf_rows_ess : forall {X} (x : list X) ll lp lq,
+  let lw := xcompute_weights_log_w x ll lp lq in
+  Forall xrow_ok lw -> fins lw <> [] ->
+  xcompute_weights_ess x ll lp lq = Fin (ess_of (map exp (fins lw)))
+  /\ 1 <= ess_of (map exp (fins lw)) <= INR (length (fins lw)).
+Proof. exact @x_ess. Qed.
+Print Assumptions C02_neg_inf_rows_ess.
+
+(* admissible rows arise from -inf likelihoods / priors with a finite proposal density *)
+Theorem C02_neg_inf_rows_admissible : forall {X} (x : list X) ll lp lq,
+  Forall xrow_ok ll -> Forall xrow_ok lp -> Forall xfinite lq -> Forall xrow_ok (xcompute_weights_log_w x ll lp lq).
+Proof. intros X x ll lp lq. exact (log_w_rows_ok ll lp lq). Qed.
+Print Assumptions C02_neg_inf_rows_admissible.
+
+(* the error branch is not hidden: if EVERY log-weight is -inf the log-sum-exp is NaN (as in the code: -inf - -inf) *)
+Theorem C02_all_neg_inf_is_nan : forall l, l <> [] -> Forall (fun a => a = NInf) l -> xlogsumexp l = NaN.
+Proof. exact x_logsumexp_all_ninf. Qed.
+Print Assumptions C02_all_neg_inf_is_nan.
